@@ -97,8 +97,6 @@ func xScenarios() []xScenario {
 			m := cMessage("Event", fld("id", "string"), a, b, note, u, d)
 			o := cOneof(m, "content", a, b)
 			o.Fields["@GetOneofConfig"] = oneofConfig("kind", true)
-			syn := cOneof(m, "_note", note)
-			syn.Fields["Desc"].(*VStruct).Fields["IsSynthetic()"] = VBool{B: true}
 			cOneof(m, "actor", u, d)
 			return m, []string{"id", "kind", "body", "url", "note", "userId", "deviceId"}
 		}, "_oneof_discriminator.pb.go"},
